@@ -784,6 +784,7 @@ func (n *ExtendsNode) Render(w io.Writer, ctx *RenderContext) error {
 	parentCtx := NewRenderContext(ctx.env, ctx.context, ctx.engine)
 	parentCtx.extending = true          // Flag that the parent is being extended
 	parentCtx.sandboxed = ctx.sandboxed // A sandbox covers the layouts a sandboxed template extends
+	parentCtx.parent = ctx.parent       // Variables visible to the child (e.g. an includer's) stay visible in its layout
 
 	// Pass along the parent template as lastLoadedTemplate for relative path resolution
 	parentCtx.lastLoadedTemplate = parentTemplate
